@@ -20,9 +20,48 @@ fn err_class(e: &elements::encode::Error) -> String {
 }
 
 /// decode -> encode -> decode -> encode fixpoint for an accepted byte string
+/// standard base64 with padding (own encoder: the text decoder is fed bytes the library never produced)
+pub fn base64(b: &[u8]) -> String {
+    const T: &[u8; 64] = b"ABCDEFGHIJKLMNOPQRSTUVWXYZabcdefghijklmnopqrstuvwxyz0123456789+/";
+    let mut out = String::with_capacity((b.len() + 2) / 3 * 4);
+    for c in b.chunks(3) {
+        let n = (c[0] as u32) << 16 | (*c.get(1).unwrap_or(&0) as u32) << 8 | *c.get(2).unwrap_or(&0) as u32;
+        out.push(T[(n >> 18) as usize & 63] as char);
+        out.push(T[(n >> 12) as usize & 63] as char);
+        out.push(if c.len() > 1 { T[(n >> 6) as usize & 63] as char } else { '=' });
+        out.push(if c.len() > 2 { T[n as usize & 63] as char } else { '=' });
+    }
+    out
+}
+
+/// the text decoder must agree with the byte decoder on every byte string: same verdict, same value
+fn check_text_decoder_agrees(ctx: &mut Ctx, b: &[u8], bytes_verdict: Option<&Pset>, origin: &str) {
+    use std::str::FromStr;
+    let text = base64(b);
+    match guard(|| Pset::from_str(&text)) {
+        Ok(Ok(pt)) => match bytes_verdict {
+            Some(pb) => {
+                ctx.check(pt == *pb, &format!("text-decoder-value-differs-from-byte-decoder/{}", origin), || json!({"bytes": hex_short(b)}));
+            }
+            None => ctx.violation(&format!("text-decoder-accepts-what-byte-decoder-rejects/{}", origin), json!({"bytes": hex_short(b), "reencoded_len": serialize(&pt).len(), "input_len": b.len()})),
+        },
+        Ok(Err(_)) => {
+            if bytes_verdict.is_some() {
+                ctx.violation(&format!("text-decoder-rejects-what-byte-decoder-accepts/{}", origin), json!({"bytes": hex_short(b)}));
+            }
+        }
+        Err(pn) => ctx.panic_violation("Pset::from_str", &pn, json!({"bytes": hex_short(b), "origin": origin})),
+    }
+    ctx.count("text-vs-byte-decoder-comparisons");
+}
+
 pub fn check_accepted(ctx: &mut Ctx, b: &[u8], origin: &str) -> Option<Pset> {
     ctx.eval();
-    let p = match guard(|| deserialize::<Pset>(b)) {
+    let first = guard(|| deserialize::<Pset>(b));
+    if let Ok(r) = &first {
+        check_text_decoder_agrees(ctx, b, r.as_ref().ok(), origin);
+    }
+    let p = match first {
         Ok(Ok(p)) => p,
         Ok(Err(e)) => {
             ctx.count(&format!("rejected/{}", origin));
